@@ -24,6 +24,9 @@ import (
 	"strings"
 
 	"os"
+	"runtime"
+	"sync"
+	"sync/atomic"
 
 	redigo "github.com/gomodule/redigo/redis"
 
@@ -186,6 +189,41 @@ func (d *subDrv) Step(line string) string {
 			o.ClientID = f[3]
 		}
 		return d.iterate(o)
+	case f[0] == "cmatch" && len(f) == 3:
+		// `cmatch <type> <topic>,<topic>,…`: the lookups run CONCURRENTLY (one goroutine per topic, 200 rounds each; readers
+		// share the store's read lock) and every answer is compared with the answer of the same lookup made alone. Prints the
+		// answers (joined by " | ") when all agree. A lookup must not depend on what other lookups are doing.
+		topics := strings.Split(f[2], ",")
+		ty := subscription.IterationType(drv.Atoi(f[1]))
+		alone := make([]string, len(topics))
+		for i, t := range topics {
+			alone[i] = d.iterate(subscription.IterationOptions{Type: ty, TopicName: t, MatchType: subscription.MatchFilter})
+		}
+		var bad int32
+		var wg sync.WaitGroup
+		for i, t := range topics {
+			wg.Add(1)
+			go func(i int, t string) {
+				defer wg.Done()
+				defer func() {
+					if recover() != nil {
+						atomic.StoreInt32(&bad, 1)
+					}
+				}()
+				for r := 0; r < 200; r++ {
+					if d.iterate(subscription.IterationOptions{Type: ty, TopicName: t, MatchType: subscription.MatchFilter}) != alone[i] {
+						atomic.StoreInt32(&bad, 1)
+						return
+					}
+					runtime.Gosched()
+				}
+			}(i, t)
+		}
+		wg.Wait()
+		if bad != 0 {
+			return "concurrent-lookups-differ"
+		}
+		return strings.Join(alone, " | ")
 	case f[0] == "client" && len(f) == 3:
 		return d.iterate(subscription.IterationOptions{Type: subscription.IterationType(drv.Atoi(f[2])), ClientID: f[1]})
 	case f[0] == "all" && len(f) == 2:
